@@ -11,7 +11,7 @@
    [no_overread]: no File parameter's payload is followed by further buffer content (known finding
    graph:file-param-overread: otherwise the statement is false of the code, see the last theorem). *)
 From Coq Require Import String Ascii List ZArith.
-From PF Require Import Base.Bytes Graph.Schema Graph.SchemaProofs Graph.Instance Graph.InstanceProofs Check.C12.
+From PF Require Import Base.Bytes Graph.Schema Graph.SchemaProofs Graph.Instance Graph.InstanceProofs Graph.Values Graph.ValuesProofs Check.C12.
 Open Scope N_scope.
 
 (* 1. same graph: ids, types, wiring INCLUDING the order of array inputs, parameter records (name,
@@ -185,6 +185,65 @@ Print Assumptions quoted_strings_injective.
 Theorem integer_text_injective : forall a b : Z, zdec a = zdec b -> a = b.
 Proof. exact zdec_inj. Qed.
 Print Assumptions integer_text_injective.
+
+(* 12. "any parameter value of each parameter type": the TYPED layer (Graph/Values.v).  A parameter's value is, per
+       kind, a Go value (number atom, int64, string, bool, vector, point array, AABB, four colour bytes, string
+       array); [to_json] is its type's MarshalJSON as a tree, [of_json] the reading back, [wf] the kind's value set
+       (incl. -0, subnormals, the largest finite float, both int64 ends, nil vs empty arrays).  Every value is read
+       back exactly ... *)
+Theorem typed_value_read_back : forall (k : vkind) (v : tval), wf k v = true -> of_json k (to_json v) = Some v.
+Proof. exact value_roundtrip. Qed.
+Print Assumptions typed_value_read_back.
+
+(* ... two different values of a kind are never saved as the same tree ... *)
+Theorem saved_tree_determines_value : forall (k : vkind) (v v' : tval),
+  wf k v = true -> wf k v' = true -> to_json v = to_json v' -> v = v'.
+Proof. exact ValuesProofs.saved_tree_determines_value. Qed.
+Print Assumptions saved_tree_determines_value.
+
+(* ... the tree of a value passes the test the binding applies to every value it observes ([canonical]) ... *)
+Theorem saved_tree_is_canonical : forall (k : vkind) (v : tval), wf k v = true -> canonical k (to_json v) = true.
+Proof. exact ValuesProofs.saved_tree_is_canonical. Qed.
+Print Assumptions saved_tree_is_canonical.
+
+(* ... WebColor's text in full: "#rrggbb" (A = 255) / "#rrggbbaa" printed with two lower-case hex digits per byte
+   is parsed back to the same four bytes ... *)
+Theorem color_text_read_back : forall r g b a : N,
+  r < 256 -> g < 256 -> b < 256 -> a < 256 -> color_parse (color_str r g b a) = Some (r, g, b, a).
+Proof. exact color_roundtrip. Qed.
+Print Assumptions color_text_read_back.
+
+(* ... and, composed with statement 9: after any edit history, a parameter holding the typed value x holds x again
+   in the reloaded graph *)
+Theorem typed_parameter_values_reload :
+  forall (T : table) (h : list op) (i : id) (n : node) (r : prec) (k : vkind) (x : tval),
+  table_ok T -> find_node (run T h) i = Some n -> n_par n = Some r -> pr_val r = Some (to_json x) -> wf k x = true ->
+  exists (s' : inst) (n' : node) (r' : prec) (j : jval),
+    decode_fixed T (encode T (run T h)) = Some s' /\ find_node s' i = Some n' /\ n_par n' = Some r'
+    /\ pr_val r' = Some j /\ of_json k j = Some x.
+Proof.
+  intros T h i n r k x HT Hn Hr Hv Hw. exists (run T h), n, r, (to_json x).
+  repeat split; try assumption.
+  - apply InstanceProofs.reload_same_fixed; assumption.
+  - apply value_roundtrip; assumption.
+Qed.
+Print Assumptions typed_parameter_values_reload.
+
+Example a_colour_with_small_alpha_reloads :
+  let h := [OCreate 8; OUpdate "Node-0" (to_json (VColor 1 2 3 4))] in
+  wf KColor (VColor 1 2 3 4) = true
+  /\ (do n <- find_node (run the_table h) "Node-0"; do r <- n_par n; pr_val r) = Some (JStr "#01020304").
+Proof. vm_compute. split; reflexivity. Qed.
+
+(* 13. producer names are file names the user typed: kept verbatim, whatever their form (paths that are not in
+       their shortest form, absolute ones, other separators, the empty name) — statement 9 holds for every name;
+       a concrete instance with names that coincide once brought into their shortest form *)
+Example unclean_producer_names_reload :
+  let h := [OCreate 17; OCreate 17; OCreate 17; OCreate 17; OSetProducer "Node-0" "./x.txt"; OSetProducer "Node-1" "x.txt";
+            OSetProducer "Node-2" "docs/../x.txt"; OSetProducer "Node-3" ""] in
+  decode_fixed the_table (encode the_table (run the_table h)) = Some (run the_table h)
+  /\ i_prods (run the_table h) = [("", "Node-3"); ("./x.txt", "Node-0"); ("docs/../x.txt", "Node-2"); ("x.txt", "Node-1")].
+Proof. vm_compute. split; reflexivity. Qed.
 
 (* non-vacuity: the table of the binding (the repository's parameter types, array-input processors, artifact
    nodes) is well formed, and a history with 11 array connections meets the hypotheses and reloads *)
